@@ -328,3 +328,42 @@ SPEC = PropSpec(
     stubs=[],
     technique="CrossHair/z3 bounded symbolic execution with symbolic patch values through RemoteState",
 )
+
+
+# ---------------------------------------------------------------------------------------------
+def h_threads(ss, marker, tka, tkb, cka, ckb, v1, v2, v3):
+    """Two patched loads overlap on two threads: each must give what it gives alone."""
+    with notrace():
+        snap = pk.snapshot()
+        try:
+            ss_, marker_ = _c(ss, 2), _c(marker, 4)
+            tka_, tkb_, cka_, ckb_ = _c(tka, 4), _c(tkb, 4), _c(cka, 3), _c(ckb, 3)
+            ev("threads", ss_, marker_, tka_, tkb_, cka_, ckb_)
+            R, Plain = build_classes(marker_, ss_, 0)
+
+            def graph():
+                g, inst = build_graph(2, 0, 0, [0, 0, 0, 0], 0, 0, R, Plain)     # root with a direct opt-in child 'c1'
+                inst[0].y = pk.Yielder(1)
+                return g
+            pa, pb = _patch_dict(tka_, cka_, v1, v2, v3), _patch_dict(tkb_, ckb_, v2, v3, v1)
+            sig = pk.two_thread_loads(lambda: rp.dumps(graph()), lambda: rp.dumps(graph()),
+                                      lambda d: rp.loads(d, extra_kwargs=pa), lambda d: rp.loads(d, extra_kwargs=pb), _canon_eq)
+            if sig == "overlap-not-reached":
+                return Outcome(None, False)
+            return Outcome(None if sig is None else "c15.threads." + sig, True)
+        finally:
+            pk.restore(snap)
+
+
+H_THREADS = Harness(
+    "threads", "vf.props.c15:h_threads",
+    OrderedDict([("ss", (0, 1)), ("marker", (0, 3)), ("tka", (0, 3)), ("tkb", (0, 3)), ("cka", (0, 2)), ("ckb", (0, 2)),
+                 ("v1", (-1000, 1000)), ("v2", (-1000, 1000)), ("v3", (-1000, 1000))]),
+    tiers={"quick": {"fixed": {"marker": 1}, "partition": ["ss", "tka"], "timeout": 300, "twin_fixed": {"ss": 1, "tka": 1}},
+           "thorough": {"partition": ["ss", "marker", "tka"], "timeout": 600, "twin_fixed": {"ss": 1, "marker": 1, "tka": 1}}},
+    functions=_FUNCS + ["pyworkers._remote_pickle.state:RemoteState.context.__init__"],
+)
+SPEC.harnesses.append(H_THREADS)
+SPEC.assumptions.append("harness 'threads': two loads with their own patches overlap on two real OS threads scheduled by vf/sim.py (thread B's whole "
+                        "loads runs while thread A is inside the restoration of a plain object of its graph); each must equal its own sequential result")
+SPEC.outside[:] = [o for o in SPEC.outside if not o.startswith("truly concurrent")] + ["overlaps of more than two loads, or switching points other than 'while a nested object is restored'"]
